@@ -137,6 +137,12 @@ func StatePredicates(prefix string) {
 		if NX > 2 {
 			second = 1
 		}
+		// B: the abort of the first transaction's proposal (target 0) is under way; BC: ... and the second transaction is
+		// committed behind it
+		pb0 := &S.Props[0][0]
+		ab := pb0.Exists && pb0.Abort.Present && pb0.Abort.State != int32(configapi.ProposalAbortPhase_ABORTED)
+		verifrt.Region(prefix+"reach:w-B-", ab && !S.Txs[second].Exists)
+		verifrt.Region(prefix+"reach:w-BC", ab && (S.Txs[second].State == txCOMMITTED || S.Txs[second].State == txAPPLIED))
 		verifrt.Region(prefix+"reach:w-U-", u && !S.Txs[second].Exists)
 		verifrt.Region(prefix+"reach:w-UF", u && S.Txs[second].State == txFAILED && !txTerminal(second))
 		const letters = "-CAFV"
